@@ -99,6 +99,10 @@ class Check(object):
         # reports
         lines = []
         rdir = os.path.join(OUT, "reports", self.pid)
+        if os.path.isdir(rdir):   # replay files describe the latest run only
+            for fn in os.listdir(rdir):
+                if fn.endswith(".json"):
+                    os.unlink(os.path.join(rdir, fn))
         if viol:
             os.makedirs(rdir, exist_ok=True)
         seen_known = set()
